@@ -460,6 +460,8 @@ pub fn arb_op(n: usize, fam: Fam, o: OpOptions) -> BoxedStrategy<Op> {
         (1, Just(Op::Default).boxed()),
         (3, arb_tt(n).prop_map(|t| Op::FromBlocks(t.w)).boxed()),
         (1, (0..(if n >= 3 { 256usize } else { 1usize << size })).prop_map(Op::AllFunctionsNth).boxed()),
+        // nth at or beyond the end of the enumeration (n <= 3: up to several times the function space)
+        (1, (if n <= 3 { (1usize << size)..(5usize << size) + 1100 } else { 256usize..1500 }).prop_map(Op::AllFunctionsNth).boxed()),
         (1, Just(Op::Clone).boxed()),
         (2, (0usize..=12).prop_map(Op::CloneFrom).boxed()),
         (4, (0usize..4).prop_map(Op::Not).boxed()),
